@@ -374,7 +374,7 @@ def evaluate(ctx, cases, label, n_u=3, exhaustive_max=10, exhaustive_cap=None, m
             continue
         seen.add(key)
         try:
-            lat = Lattice(pos.copy(), edges.copy(), crossing.copy())
+            lat = Lattice(*layout_variant(pos, edges, crossing)[:3])
             F = lat.n_plaquettes
         except LatticeException:
             res.skip("plaquette-finder-raised(C01)")
